@@ -113,6 +113,10 @@ InfRules(s, e, k, okdata) ==
   \o Iff("inf_progress_or_terminal",
          live /\ e.flush # "Full" /\ ~(s.fin /\ e.flush # "Finish") /\ e.in_len > 0 /\ e.out_len > 0 =>
             e.consumed + e.written > 0 \/ e.status # "Ok")
+  \* a buffer error (outside Finish) means "starved": it is never the answer to a call that brings input
+  \* and output space, so supplying input always gets a stream going again
+  \o Iff("inf_buf_error_only_when_starved",
+         live /\ ~s.fin /\ e.flush \in {"None", "Sync"} /\ e.in_len > 0 /\ e.out_len > 0 => e.status # "ErrBuf")
   \o Iff("inf_stream_end_iff_all_delivered_and_consumed",
          okst /\ k.v = "done" =>
             ((e.status = "StreamEnd") = (s.tout + e.written = k.plen /\ s.tin + e.consumed = k.endbyte)))
